@@ -4,7 +4,9 @@
 #define VP_ALLOCSHIM_H
 #include "vp.h"
 #include <stdlib.h>
+#ifndef VP_MAXALLOC
 #define VP_MAXALLOC 12
+#endif
 _Bool in_fail[VP_MAXALLOC];
 int vp_nalloc = 0, vp_live = 0, vp_failed = 0;
 static void vp_alloc_init(void) { for (int i = 0; i < VP_MAXALLOC; i++) in_fail[i] = vp_bool_i("in_fail", i); }
